@@ -19,16 +19,11 @@ Proof. exact make_valid_eq. Qed.
 Theorem T04_check_valid : forall mods rows, check_valid_cy mods rows = check_valid_py mods rows.
 Proof. exact check_valid_eq. Qed.
 
-(* explicit scan with break  ==  np.nonzero of the padded change mask, for every (L, M) with L >= 1 or M = 0 *)
+(* explicit scan with break  ==  np.nonzero of the padded change mask, for every (L, M), including L = 0 *)
 Theorem T04_find_row_differences : forall M rows,
-  0 <= M -> Forall (fun r => length r = Z.to_nat M) rows -> (rows <> [] \/ M = 0) ->
+  0 <= M -> Forall (fun r => length r = Z.to_nat M) rows ->
   frd_cy M rows = frd_py M rows.
 Proof. exact find_row_differences_eq. Qed.
-
-(* ... and the restriction is necessary: on an array with no rows but M > 0 columns the two differ
-   (py: [0], cy: [0, 0]); the witness is replayed on the code by harness/c04.py (known finding) *)
-Theorem T04_find_row_differences_empty_refuted : exists M rows, 0 <= M /\ frd_cy M rows <> frd_py M rows.
-Proof. exact find_row_differences_empty_differs. Qed.
 
 (* C intp_t arithmetic  ==  Python integers stored into an intp array, whenever the number of blocks
    (product of the non-zero extents) fits int64; both storage orders, every rank >= 1 *)
@@ -231,7 +226,6 @@ Proof. vm_compute. repeat split; reflexivity. Qed.
 Print Assumptions T04_make_valid.
 Print Assumptions T04_check_valid.
 Print Assumptions T04_find_row_differences.
-Print Assumptions T04_find_row_differences_empty_refuted.
 Print Assumptions T04_make_stride.
 Print Assumptions T04_map_blocks.
 Print Assumptions T04_iadd_merge.
